@@ -357,6 +357,9 @@ class Session:
                            "cells": [[cell_json(x) for x in cur._data[c]] for c in cur._col_names]}
                 elif kind == "exprcol":
                     val = [cell_json(x) for x in (t[op["expr"]] if not op.get("via_cols") else t.cols[op["expr"]][op["expr"]])]
+                elif kind == "colexpr":
+                    # the integer fragment the model computes (XModel/TableExpr.lean): compared cell by cell
+                    val = [cell_json(x) for x in t[op["text"]]]
                 else:
                     raise ValueError("unknown op " + kind)
         except Exception as e:  # noqa
@@ -805,6 +808,27 @@ def gen_c14(rng, sess):
                 if rng.random() < 0.5:
                     op2["then"] = rng.choice([["newcol", "extra_y"], ["delcol", rng.choice(["v", "w", "s"])]])
                 sess.step(op2)
+        elif r < 0.78:
+            # + - * and unary minus over the integer columns: evaluated by the model too
+            def gen_ce(d):
+                x = rng.random()
+                if d == 0 or x < 0.3:
+                    return ["col", rng.choice(["v", "w"])] if rng.random() < 0.75 else ["lit", rng.randint(-3, 4)]
+                if x < 0.45:
+                    return ["neg", gen_ce(d - 1)]
+                return [rng.choice(["add", "sub", "mul"]), gen_ce(d - 1), gen_ce(d - 1)]
+
+            def text_of(e):
+                if e[0] == "col":
+                    return e[1]
+                if e[0] == "lit":
+                    return "(%d)" % e[1]
+                if e[0] == "neg":
+                    return "(-%s)" % text_of(e[1])
+                return "(%s %s %s)" % (text_of(e[1]), {"add": "+", "sub": "-", "mul": "*"}[e[0]], text_of(e[2]))
+            e = gen_ce(rng.randint(1, 3))
+            if "col" in json.dumps(e) and all(c in t._col_names for c in ("v", "w")):
+                sess.step({"op": "colexpr", "expr": e, "text": text_of(e)})
         elif r < 0.85:
             exprs = ["v+2*w", "v*w-x", "x/2+v", "np.sqrt(x)+w", "v**2"]
             # columns named like a numpy function: in an expression the name means the column
